@@ -117,4 +117,18 @@ CHECKS = {
                 "the text between two sentinels must be exactly the body (entities decoded for nowiki/pre), the tree must have the structure it has with a plain-word body, and replace_uniq(replace_tags(s)) == s.",
         "note": "two known findings are reported as KNOWN-FINDING (include tags processed inside opaque tags; <nowiki> stripped inside <pre>); bodies containing those lexemes are attributed to them.",
     },
+    "C02": {
+        "engine": "input-enum", "category": "model_checking", "design_ref": "DESIGN.md §2 C02",
+        "technique": "bounded-exhaustive enumeration of documents of a grammar with denotation; equality of every token's structural ancestor chain with the chain its markup denotes",
+        "text": SMALL_SCOPE + "every document of grammar G (38-entry block library: headings, paragraphs with styles/links/refs, nested mixed lists, definition lists, tables with header/caption/nested list/nested table, preformatted) "
+                "with <=2 blocks (quick: + 3 blocks over a 16-entry core; thorough: 3 blocks over the full library) x 4 spelling variants, one-block documents in all 12 languages. Every text leaf is a unique token; "
+                "tokens must occur exactly once, in source order, under exactly the denoted ancestors.",
+        "note": "order among inline ancestors (styles/link) is compared as a set; Paragraph/Node wrappers are transparent; one known finding (last preformatted line without trailing newline).",
+    },
+    "C07": {
+        "engine": "input-enum", "category": "model_checking", "design_ref": "DESIGN.md §2 C07",
+        "technique": "bounded-exhaustive enumeration of in-domain grammar documents with a differential oracle on the same tree before/after clean_all()",
+        "text": SMALL_SCOPE + "every in-domain document of grammar G (every heading followed by body text, no removal trigger) up to the block bound; the visible token sequence, each token's section path, list-item depth and reference must be unchanged by cleaning and tokens of tables with >=2 rows and columns must stay in a table.",
+        "note": "documents are far below the cleaner's size heuristics by construction.",
+    },
 }
